@@ -985,7 +985,7 @@ func (c *child) runOp(o Op) Obs {
 						n++
 					}
 				}
-				return n >= want
+				return n >= 3*want // the tasks of all three attempts end in the roster
 			})
 		}
 		if o.Spec.Fail == 4 {
